@@ -22,7 +22,7 @@ import (
 // Fault enumeration: every query history x every fault point x every fault kind.
 
 var c19Lists = []scen.ListSpec{
-	{ID: 1, Text: "! list 1 (file)\n||example.org^\n||example.org/ads\n/ex[a-z]+le\\.net/\n/ad$domain=example.org\n@@||example.org^$generichide\n##.g1\nexample.org##.s1\n"},
+	{ID: 1, Text: "! list 1 (file)\n||example.org^\n||example.org/ads\n/ex[a-z]+le\\.net/\n/ad$domain=example.org\n@@||example.org^$generichide\n##.g1\nexample.org##.s1\n/x$domain=example.org\n/x$domain=sub.example.org\n/x$domain=org\n"},
 	{ID: 2, Text: "# list 2 (file)\n||ads.example.com^\n0.0.0.0 example.org\n:: example.org\n127.0.0.1 hosts.test alias.test\n||blocked.test^$client=10.0.0.1\n/h[o0]sts\\.test/\n||rw.test^$dnsrewrite=1.2.3.4\n0.0.0.0 shared.test\n0.0.0.0 only.test shared.test\n||shared2.test^\n||only2.test^$important\n"},
 }
 
@@ -42,6 +42,9 @@ func c19Queries() []scen.Query {
 		{Kind: "dns", Host: "rw.test", DNSType: 1},
 		// two host rules in one bucket: the later one can be in memory (through its
 		// other name) while the earlier one is not
+		// several $domain rules found through different dot-suffixes of one source host
+		{Kind: "netall", URL: "http://y.test/x", Src: "http://example.org/", Type: rules.TypeScript},
+		{Kind: "netall", URL: "http://y.test/x", Src: "http://sub.example.org/", Type: rules.TypeScript},
 		{Kind: "dns", Host: "only.test", DNSType: 1},
 		{Kind: "dns", Host: "shared.test", DNSType: 1},
 	}
